@@ -975,6 +975,7 @@ struct AllocState {
         size_t bytes;
         bool allocated;
         int constructed;  // number of live objects constructed in the block (0/1)
+        bool rec = false; // bookkeeping record (constructed from a single pointer argument) rather than an element node
     };
     std::unordered_map<void*, Blk> blocks;
     std::vector<std::pair<void*, size_t>> quarantine;
@@ -1048,10 +1049,11 @@ struct AllocState {
             violation("oracle:alloc_construct_over_live", "{}");
         }
         it->second.constructed = 1;
+        it->second.rec = rec;
         constructs++;
         (rec ? rec_constructs : node_constructs)++;
     }
-    void on_destroy(void* p, bool rec = false)
+    void on_destroy(void* p)
     {
         std::unique_lock<std::mutex> l(mu);
         if (p == nullptr) {
@@ -1068,6 +1070,7 @@ struct AllocState {
             violation("oracle:alloc_destroy_not_live", "{}");
         }
         it->second.constructed = 0;
+        bool rec = it->second.rec;
         destroys++;
         (rec ? rec_destroys : node_destroys)++;
         if (!rec && live_handles && live_handles->load(std::memory_order_relaxed) > 0) node_destroys_with_live_handle++;
@@ -1128,19 +1131,21 @@ struct TrackAlloc {
     void construct(U* p, A&&... a)
     {
         ::new (static_cast<void*>(p)) U(std::forward<A>(a)...);
-        st->on_construct(p, is_record<U>());
+        // the list's log records are built from one pointer (the erased node or the registering guard); element nodes are
+        // built from element values. (Independent of the library's internal type names.)
+        st->on_construct(p, single_pointer_arg<A...>());
     }
     template<class U>
     void destroy(U* p)
     {
-        st->on_destroy(p, is_record<U>());
+        st->on_destroy(p);
         p->~U();
     }
-    template<class U>
-    static bool is_record()
+    template<class... A>
+    static constexpr bool single_pointer_arg()
     {
-        static const bool r = strstr(typeid(U).name(), "zombie") != nullptr;
-        return r;
+        if constexpr (sizeof...(A) == 1) return (std::is_pointer<std::decay_t<A>>::value && ...);
+        else return false;
     }
     template<class U>
     bool operator==(const TrackAlloc<U>& o) const { return st == o.st; }
